@@ -1,5 +1,116 @@
 package main
 
-import "github.com/metal-toolbox/audito-maldito/verif/vlib"
+import (
+	"context"
+	"fmt"
+	"sort"
+	"strconv"
+	"time"
 
-func c16Realtime(r *vlib.Run) {}
+	"github.com/metal-toolbox/audito-maldito/internal/common"
+	"github.com/metal-toolbox/audito-maldito/internal/health"
+	"github.com/metal-toolbox/audito-maldito/processors/auditd"
+	"github.com/metal-toolbox/audito-maldito/verif/vlib"
+)
+
+// c16Realtime is the processor-level part of C16 (thorough tier only, about
+// 160 s of wall time): one Auditd.Read with its real one-minute ticker.
+// Halves less than a minute apart must correlate (also across a tick), halves
+// more than two minutes apart must not, and held events must never appear.
+// The actual gaps are measured; a gap that scheduling pushed into the
+// unspecified 60-120 s band makes that session inconclusive.
+func c16Realtime(r *vlib.Run) {
+	type half struct {
+		at    time.Duration
+		login bool
+		k     int
+	}
+	type sess struct {
+		name          string
+		recAt, logAt  time.Duration
+		mustCorrelate bool
+	}
+	ss := []sess{
+		{"A1 record T+35 login T+85", 35 * time.Second, 85 * time.Second, true},
+		{"A2 login T+40 record T+95", 95 * time.Second, 40 * time.Second, true},
+		{"A3 record T+58 login T+62", 58 * time.Second, 62 * time.Second, true},
+		{"A4 record T+118 login T+123", 118 * time.Second, 123 * time.Second, true},
+		{"B1 record T+1 login T+150", 1 * time.Second, 150 * time.Second, false},
+		{"B2 record T+5 login T+131", 5 * time.Second, 131 * time.Second, false},
+		{"C1 login T+1 record T+150", 150 * time.Second, 1 * time.Second, false},
+		{"C2 login T+20 record T+145", 145 * time.Second, 20 * time.Second, false},
+	}
+	var hs []half
+	for k, s := range ss {
+		hs = append(hs, half{s.recAt, false, k}, half{s.logAt, true, k})
+	}
+	sort.Slice(hs, func(i, j int) bool { return hs[i].at < hs[j].at })
+	rec := vlib.NewRec()
+	audits := make(chan string)
+	logins := make(chan common.RemoteUserLogin)
+	a := auditd.Auditd{Audits: audits, Logins: logins, EventW: rec.Writer(), Health: health.NewHealth()}
+	ctx, cancel := context.WithCancel(context.Background())
+	defer cancel()
+	done := make(chan error, 1)
+	t0 := time.Now()
+	go func() { done <- a.Read(ctx) }()
+	actual := make([][2]time.Duration, len(ss)) // [rec, login]
+	seq := uint32(100)
+	for _, h := range hs {
+		time.Sleep(time.Until(t0.Add(h.at)))
+		pid := 70000 + h.k
+		sid := strconv.Itoa(5000 + h.k)
+		if h.login {
+			select {
+			case logins <- common.RemoteUserLogin{Source: identityEvent(h.k, pid, time.Now().UTC()), PID: pid, CredUserID: "c"}:
+			case err := <-done:
+				r.Inconclusive(fmt.Sprint("C16 real-time: Read returned early: ", err))
+				return
+			}
+			actual[h.k][1] = time.Since(t0)
+		} else {
+			for _, l := range []string{vlib.AuLogin(vlib.BaseTSms+int64(h.k*10), seq+1, strconv.Itoa(pid), sid),
+				vlib.AuUser("USER_START", vlib.BaseTSms+int64(h.k*10+1), seq+2, pid, sid, "PAM:x", "success")} {
+				select {
+				case audits <- l:
+				case err := <-done:
+					r.Inconclusive(fmt.Sprint("C16 real-time: Read returned early: ", err))
+					return
+				}
+			}
+			seq += 2
+			actual[h.k][0] = time.Since(t0)
+		}
+	}
+	// barrier lines, then let the last emissions land
+	for k := 0; k < 2; k++ {
+		seq++
+		audits <- vlib.AuUser("USER_ACCT", vlib.BaseTSms+900000+int64(k), seq, 1, "4294967295", "x", "success")
+	}
+	time.Sleep(200 * time.Millisecond)
+	cancel()
+	<-done
+	per := map[string]int{}
+	for _, c := range rec.Calls() {
+		per[c.Ev.Metadata.AuditID]++
+	}
+	var rows []any
+	for k, s := range ss {
+		gap := actual[k][0] - actual[k][1]
+		if gap < 0 {
+			gap = -gap
+		}
+		emitted := per[strconv.Itoa(5000+k)]
+		rows = append(rows, map[string]any{"session": s.name, "measured_gap_s": gap.Seconds(), "events_emitted": emitted})
+		switch {
+		case gap > 60*time.Second && gap < 120*time.Second:
+			r.Inconclusive(fmt.Sprintf("C16 real-time %s: measured gap %.1fs fell into the unspecified 60-120 s band", s.name, gap.Seconds()))
+		case s.mustCorrelate && gap <= 60*time.Second && emitted != 2:
+			r.Violation("C16:realtime:not-correlated-within-a-minute", fmt.Sprintf("%s: halves %.1fs apart, %d of 2 events emitted", s.name, gap.Seconds(), emitted), map[string]any{"session": s.name})
+		case !s.mustCorrelate && gap >= 120*time.Second && emitted != 0:
+			r.Violation("C16:realtime:correlated-after-two-minutes", fmt.Sprintf("%s: halves %.1fs apart, %d held events were emitted late", s.name, gap.Seconds(), emitted), map[string]any{"session": s.name})
+		}
+	}
+	r.Set("realtime_sessions", rows)
+	r.Set("realtime_wall_s", time.Since(t0).Seconds())
+}
